@@ -86,10 +86,25 @@ def isMatch (k : Keyword) (line : List Char) : Bool := (find (toToks k) line).is
 
 def captures (k : Keyword) (line : List Char) : Option Caps := find (toToks k) line
 
-/-- the model covers this keyword/line pair (ASCII-only case folding) -/
+/-- characters without case variants under Unicode simple case folding: ASCII is handled by
+`foldEq`; beyond ASCII a conservative list of caseless blocks (Lean's `Char.toLower` is ASCII-only,
+so casedness cannot be computed here).  Latin-1 symbols (not ª µ º), × ÷, General Punctuation,
+arrows … Miscellaneous Technical, box drawing … dingbats, CJK symbols, kana, CJK ideographs,
+Hangul syllables, pictographs. -/
+def caseless (c : Char) : Bool :=
+  let n := c.toNat
+  n < 128 ||
+  (0xA0 ≤ n && n ≤ 0xBF && n != 0xAA && n != 0xB5 && n != 0xBA) || n == 0xD7 || n == 0xF7 ||
+  (0x2000 ≤ n && n ≤ 0x206F) || (0x2190 ≤ n && n ≤ 0x23FF) || (0x2500 ≤ n && n ≤ 0x27BF) ||
+  (0x3000 ≤ n && n ≤ 0x30FF) || (0x4E00 ≤ n && n ≤ 0x9FFF) || (0xAC00 ≤ n && n ≤ 0xD7A3) ||
+  (0x1F300 ≤ n && n ≤ 0x1FAFF)
+
+/-- the model covers this keyword/line pair (ASCII-only case folding): no regex keyword, every
+keyword character ASCII or known caseless, and the line free of the two non-ASCII characters that
+fold to ASCII letters (U+212A KELVIN SIGN ↦ k, U+017F LONG S ↦ s) -/
 def modelled (k : Keyword) (line : List Char) : Bool :=
   k.ty != .regex &&
-  k.text.toList.all (fun c => c.toNat < 128 || c.toLower == c && c.toUpper == c) &&
+  k.text.toList.all caseless &&
   line.all (fun c => c.toNat != 0x212A && c.toNat != 0x017F)
 
 end Kw
